@@ -37,14 +37,21 @@ extern "C" void igris_verif_point(const char *kind, const void *obj, long val) {
     if (kind[0] == 'u' && kind[2] == 'u') { g_unlinked.fetch_add(1, std::memory_order_relaxed); ++tl_unlinked; }   // u_unlink
     else if (kind[0] == 'w' && kind[2] == 'e') g_enq.fetch_add(1, std::memory_order_relaxed);          // w_enq
     maybe_yield();     // before and after: a step may be delayed on either side of its report
-    if (g_logging) { std::lock_guard<std::mutex> g(g_logm); g_log.push_back(Rec{kind, tl_tid, obj, val}); }
+    if (g_logging) { std::lock_guard<std::mutex> g(g_logm); if (g_log.size() < 20000) g_log.push_back(Rec{kind, tl_tid, obj, val}); }   // (a runaway loop must not flood the trace; the execution is then reported as hung)
     maybe_yield();
 }
 
-struct Op { std::string k; long a; };
+struct Op { std::string k; long a; long b; };
+// delegate waiters (waiter_delegate_init): queue entries that are not threads; waking one calls its function under the system lock.
+// A delegate with chain != 0 wakes the next waiter of the same queue from inside its callback (the system lock is recursive).
+struct Deleg { waiter w; int id; int chain; };
+static Deleg g_deleg[8];
+static igris::dlist_base *WQ;
+static void deleg_cb(void *obj) { Deleg *d = (Deleg *)obj; igris_verif_point("d_call", d, (long)d->w.future); if (d->chain) unwait_one(WQ, 700 + d->id); }
+static int deleg_id(const void *p) { const char *q = (const char *)p; if (q >= (const char *)g_deleg && q < (const char *)(g_deleg + 8)) return g_deleg[(q - (const char *)g_deleg) / sizeof(Deleg)].id; return 0; }
 static std::vector<std::vector<Op>> prog;
 struct Item { int v; };
-static igris::dlist_base *WQ; static igris::safe_queue<int> *SQ;
+static igris::safe_queue<int> *SQ;
 static std::vector<std::vector<long long>> rets;   // per thread: values returned by wait / pop
 static int n_waits = 0, n_pushes = 0;
 
@@ -57,6 +64,8 @@ static void run_thread(int tid, unsigned seed) {
         else if (op.k == "save") sv = system_lock_save();
         else if (op.k == "restore") system_lock_restore(sv);
         else if (op.k == "wait") { void *fut = 0; wait_current_schedee(WQ, (int)op.a, &fut); rets[tid].push_back((long long)(intptr_t)fut); }
+        else if (op.k == "denq") { Deleg &d = g_deleg[op.a - 11]; d.id = (int)op.a; d.chain = (int)op.b; if (d.w.lnk.is_linked()) d.w.lnk.unlink(); d.w.future = 0; waiter_delegate_init(&d.w, deleg_cb, &d);
+            system_lock(); WQ->move_back(d.w.lnk); igris_verif_point("d_enq", &d, 0); g_enq.fetch_add(1, std::memory_order_relaxed); system_unlock(); }
         else if (op.k == "unwait_one") {   // wake exactly one waiter that is (or will be) queued
             int before = tl_unlinked;
             do { unwait_one(WQ, op.a); if (tl_unlinked == before) std::this_thread::sleep_for(std::chrono::microseconds(50)); }
@@ -75,7 +84,7 @@ int main(int argc, char **argv) {
     return run(argc, argv, [&](const std::vector<std::string> &t) {
         const std::string &op = t[0];
         if (op == "R") { nth = num(t[2]); prog.assign(nth + 1, {}); rets.assign(nth + 1, {}); n_waits = 0; n_pushes = 0; return; }
-        if (op == "P") { int tid = num(t[1]); Op o{t[2], t.size() > 3 ? num(t[3]) : 0}; prog[tid].push_back(o); if (o.k == "wait") ++n_waits; if (o.k == "push") ++n_pushes; return; }
+        if (op == "P") { int tid = num(t[1]); Op o{t[2], t.size() > 3 ? num(t[3]) : 0, t.size() > 4 ? num(t[4]) : 0}; prog[tid].push_back(o); if (o.k == "wait" || o.k == "denq") ++n_waits; if (o.k == "push") ++n_pushes; return; }
         if (op == "GO") {
             unsigned seed = num(t[1]); g_logging = t.size() < 3 || t[2] != "race"; g_yield_pct = t.size() > 3 ? num(t[3]) : 30;
             alarm(0);
@@ -105,7 +114,8 @@ int main(int argc, char **argv) {
                     if (k == "w_create") { evown.push_back({x.obj, x.t}); w = x.t; }
                     else if (k == "ev_sleft" || k == "ev_senter" || k == "ev_wenter") w = 0;
                     else if (k[0] == 'e' || k == "w_enq" || k == "w_resumed" || k == "w_destroy") w = owner_of(x.obj, false);
-                    else if (k == "u_unlink") w = owner_of(x.obj, true);
+                    else if (k == "d_enq" || k == "d_call") w = deleg_id(x.obj);
+                    else if (k == "u_unlink") w = deleg_id(x.obj) ? deleg_id(x.obj) : owner_of(x.obj, true);
                     Ev e(x.kind); e.i("t", x.t).i("w", w).i("v", x.val); e.end();
                 }
             }
